@@ -50,6 +50,11 @@ func (f *FilterData) SelectorMatch(item any) bool {
 			continue
 		}
 
+		// an item that does not have the selected element does not match
+		if itemF.Kind() != reflect.Ptr || itemF.IsNil() {
+			return false
+		}
+
 		itemValue := itemF.Elem().Interface()
 		if itemValue != value {
 			return false
